@@ -11,6 +11,7 @@ import (
 	"log"
 	"net/http"
 	"strings"
+	"testing/iotest"
 	"time"
 
 	"github.com/WICG/webpackage/go/signedexchange"
@@ -172,7 +173,15 @@ func run(r *mon.Run) {
 			continue
 		}
 		var back *signedexchange.Exchange
-		p, pv = r.Call(fmt.Sprintf("read/%d", i), buf.Bytes(), func() { back, err = signedexchange.ReadExchange(bytes.NewReader(buf.Bytes())) })
+		// the file is read through a different kind of reader from case to case: bytes.Reader, one byte per Read, a reader without any optional method
+		var src io.Reader = bytes.NewReader(buf.Bytes())
+		switch i % 3 {
+		case 1:
+			src = iotest.OneByteReader(bytes.NewReader(buf.Bytes()))
+		case 2:
+			src = struct{ io.Reader }{bytes.NewReader(buf.Bytes())}
+		}
+		p, pv = r.Call(fmt.Sprintf("read/%d", i), buf.Bytes(), func() { back, err = signedexchange.ReadExchange(src) })
 		if p || err != nil {
 			bad("UNREADABLE", fmt.Sprintf("ReadExchange rejects what Write produced: %v %v", err, pv))
 			continue
@@ -209,8 +218,22 @@ func run(r *mon.Run) {
 			policyOK = cacheable
 		}
 		outcome := "roundtrip-ok"
+		snapshot := rsxg.Norm(back.ResponseHeaders)
+		snapPayload := append([]byte{}, back.Payload...)
+		snapSig := back.SignatureHeaderValue
 		for ti, t := range times {
 			v, pan := verify(r, fmt.Sprintf("verify-after/%d/%d", i, ti), back, t, id)
+			// Verify is a query: calling it again gives the same answer and it does not modify the exchange
+			if v2, _ := verify(r, fmt.Sprintf("verify-again/%d/%d", i, ti), back, t, id); v2.ok != v.ok || !bytes.Equal(v2.payload, v.payload) {
+				outcome = "VERIFY-NOT-REPEATABLE"
+				bad(outcome, fmt.Sprintf("two consecutive Verify calls at the same instant disagree (%v/%d bytes, then %v/%d bytes)", v.ok, len(v.payload), v2.ok, len(v2.payload)))
+				break
+			}
+			if !bytes.Equal(back.Payload, snapPayload) || back.SignatureHeaderValue != snapSig || fmt.Sprint(rsxg.Norm(back.ResponseHeaders)) != fmt.Sprint(snapshot) {
+				outcome = "VERIFY-MODIFIED-THE-EXCHANGE"
+				bad(outcome, "Verify changed the exchange it was asked to verify")
+				break
+			}
 			switch {
 			case pan:
 				outcome = "VERIFY-PANIC"
